@@ -609,30 +609,41 @@ def systematic_offers():
 # one connection
 
 class Conn:
-    def __init__(self, res, holder, path, level, ext_headers, shape, cbmask=3, misalign=0):
+    def __init__(self, res, holder, path, level, ext_headers, shape, cbmask=3, misalign=0, share=None, slot=0):
+        """share: another Conn whose harness process this connection lives in too (slot = which of the process's connections)"""
         self.res, self.shape = res, shape
-        self.w = Wsx(path)
-        holder["conn"] = self
+        self.slot, self.shared = slot, share is not None
+        if share is not None:
+            self.w = share.w
+            share.shared = True
+        else:
+            self.w = Wsx(path)
+            holder["conn"] = self
         self.status, self.headers, self.rest, self.state, self.alive = None, {}, b"", None, False
         self.closed = False
-        evs = self.w.cmd("conn %d %d %d %d" % (level, cbmask, misalign, READER_LIMIT))
-        evs = self.w.cmd("feed " + http_request(ext_headers).hex())
+        evs = self.cmd("conn %d %d %d %d" % (level, cbmask, misalign, READER_LIMIT))
+        evs = self.cmd("feed " + http_request(ext_headers).hex())
         raw = b"".join(bytes.fromhex(e["hex"]) for e in evs if e["ev"] == "w")
         self.status, self.headers, self.rest = parse_http_response(raw)
         self.alive = evs[-1]["alive"]
         self.state = None
         if self.alive:
-            st = [e for e in self.w.cmd("state") if e["ev"] == "state"]
+            st = [e for e in self.cmd("state") if e["ev"] == "state"]
             self.state = st[0] if st else None
 
+    def cmd(self, line):
+        if self.shared:
+            self.w.cmd("use %d" % self.slot)
+        return self.w.cmd(line)
+
     def send(self, kind, payload):
-        evs = self.w.cmd("send %s %s" % (kind, payload.hex() if payload else "-"))
+        evs = self.cmd("send %s %s" % (kind, payload.hex() if payload else "-"))
         return evs
 
     def feed(self, data, chunk=0):
         if chunk:
-            return self.w.cmd("feedc %d %s" % (chunk, data.hex()))
-        return self.w.cmd("feed " + data.hex())
+            return self.cmd("feedc %d %s" % (chunk, data.hex()))
+        return self.cmd("feed " + data.hex())
 
 
 def run_conn(res, body, path, shape):
@@ -808,10 +819,10 @@ def collect_delivery(evs):
 
 
 def c2s_messages(res, c, neg, rng, payloads, kind, level, frag, style, chunk, keysuffix, compressed=True,
-                 zlevel=6, strategy=0, wbits=None, takeover=None):
+                 zlevel=6, strategy=0, wbits=None, takeover=None, ref=None):
     wb = min(wbits, neg["cmwb"]) if wbits else neg["cmwb"]
     tk = (not neg["cnct"]) if takeover is None else takeover
-    ref = RefDeflater(wb, tk, zlevel, strategy, style=style)
+    ref = ref or RefDeflater(wb, tk, zlevel, strategy, style=style)
     opcode = 1 if kind == "t" else 2
     for cls, p in payloads:
         d = ref.deflate(p) if compressed else p
@@ -1171,7 +1182,70 @@ def sc_strict(case, res):
     res.sample = dict(case=p)
 
 
-SCEN = {"s2c": sc_s2c, "c2s": sc_c2s, "corrupt": sc_corrupt, "nego": sc_nego, "strict": sc_strict}
+def sc_multi(case, res):
+    """several connections with DIFFERENT negotiated parameters in one process, as in a server: the same payloads are sent to all
+    of them in turn (a broadcast), mixed with messages of their own in both directions; every connection's stream is followed
+    by its own reference endpoint (window and context take-over as negotiated for THAT connection)"""
+    p = case["params"]
+    rng = random.Random(case["seed"])
+    shape = "multi"
+
+    def body(holder):
+        holder["shape"] = shape
+        conns = []
+        first = None
+        for k, off in enumerate(p["offers"]):
+            e = offer_for(off)
+            c = Conn(res, holder, case["bin"], p["level"], [e["text"]], shape, share=first, slot=k)
+            first = first or c
+            if not check_handshake(res, c, p["level"], e["text"]):
+                return
+            viol, neg = judge_negotiation(p["level"], [e], c.headers)
+            res.viol.extend(viol)
+            if neg is None:
+                continue
+            tk = not neg["cnct"]
+            conns.append(dict(c=c, neg=neg, inf=RefInflater(neg["smwb"], neg["snct"]), ref=RefDeflater(neg["cmwb"], tk, 6, 0, style="sync"), k=k, n=0))
+        if len(conns) < 2:
+            res.stats["multi_too_few_connections"] += 1
+            return
+        pool = [make_payload(rng, rng.choice(["text", "json", "repetitive"]), rng.choice([0, 8, 40, 120, 300, 900, 2000, 2100, 5000])) for _ in range(4)]
+
+        def keyfn(cls, pl):
+            return "multi-connection:" + cls
+
+        def s2c(cn, pl, cls):
+            holder["shape"] = "multi-s2c"
+            cn["n"] += 1
+            return s2c_messages(res, cn["c"], cn["neg"], [(cls, pl)], p["kind"], p["level"], "multi", keyfn, cn["inf"])
+        for step in range(p.get("steps", 14)):
+            r = rng.random()
+            if r < 0.55:
+                # the same payload to every connection, in varying order; often one that was broadcast before
+                pl = rng.choice(pool) if rng.random() < 0.7 else make_payload(rng, "text", rng.choice([30, 200, 1500]))
+                order = conns[:]
+                rng.shuffle(order)
+                for cn in order:
+                    if not s2c(cn, pl, "broadcast"):
+                        return
+                res.stats["multi_broadcasts"] += 1
+                res.sigs.add(("multi-broadcast", p["level"], tuple(sorted(("no-takeover" if c_["neg"]["snct"] else "takeover", c_["neg"]["smwb"]) for c_ in conns)), size_class(len(pl))))
+            elif r < 0.8:
+                cn = rng.choice(conns)
+                if not s2c(cn, make_payload(rng, rng.choice(["text", "json"]), rng.choice([5, 60, 400])), "own"):
+                    return
+            else:
+                cn = rng.choice(conns)
+                holder["shape"] = "multi-c2s"
+                pl = rng.choice(pool) if rng.random() < 0.5 else make_payload(rng, "json", rng.choice([20, 300]))
+                if not c2s_messages(res, cn["c"], cn["neg"], rng, [("multi", pl)], p["kind"], p["level"], "single", "sync", 0, "multi-connection", ref=cn["ref"]):
+                    return
+        res.stats["multi_sessions"] += 1
+    run_conn(res, body, case["bin"], shape)
+    res.sample = dict(case=p, ops=[o[:100] for o in (res.ops or [])[:8]])
+
+
+SCEN = {"s2c": sc_s2c, "c2s": sc_c2s, "corrupt": sc_corrupt, "nego": sc_nego, "strict": sc_strict, "multi": sc_multi}
 
 
 def run_one(case):
@@ -1265,6 +1339,15 @@ def gen_cases(tier, seed):
     for level in (1, 2, 3):
         for cls in CLASSES:
             add("s2c", level=level, kind="b", offer={}, payloads=[(cls, 65536)])
+
+    # --- several connections with different parameters side by side in one process (broadcasts)
+    multi_offers = [{}, {"snct": True}, {"smwb": "9"}, {"smwb": "12", "snct": True}, {"cnct": True}, {"cmwb": "10"}, {"snct": True, "cnct": True}, {"smwb": "15"}]
+    for level in (1, 2, 3):
+        det = ("multi-witness", level)
+        add("multi", fixed=det, level=level, kind="t", offers=[{"snct": True}, {}], steps=12)
+        add("multi", fixed=det, level=level, kind="t", offers=[{}, {"snct": True}, {"smwb": "9"}], steps=12)
+    for i in range(1500 if thorough else 60):
+        add("multi", level=rng.choice((1, 2, 3)), kind=rng.choice("tb"), offers=[rng.choice(multi_offers) for _ in range(rng.choice([2, 2, 3, 4]))], steps=rng.choice([8, 14, 20]))
 
     # --- c2s
     def c2s_payloads(frag):
@@ -1395,7 +1478,9 @@ ASSUMPTIONS = [
 ]
 
 RULE = ("a case is one harness process = one WebSocket connection with a fixed (oracle, level, offer, payload list, "
-        "fragmentation, client deflate settings, mutation); a signature counts only when the message was actually "
+        "fragmentation, client deflate settings, mutation), or ('multi') 2-4 connections with different negotiated parameters side by side in one "
+        "process, to all of which the same payloads are sent in turn (broadcasts) between messages of their own in both directions, each stream "
+        "followed by its own reference endpoint; a signature counts only when the message was actually "
         "exchanged and judged: (direction, level, window bits, takeover, payload class, size class, fragmentation / "
         "frame length encoding / client zlib settings) resp. (corrupt, level, mutation, outcome) resp. "
         "(nego, level, accepted response text | declined, offer classes)")
